@@ -51,10 +51,10 @@ vars == <<m, transport, form, args, phase, req, sent, script, result, raised>>
 \* ---- input space ---------------------------------------------------------------------------------
 SetsUpTo(S, k) == {T \in SUBSET S : Cardinality(T) <= k}
 MaxSet == IF Scope = "full" THEN 3 ELSE 2
-ValsFor(mm, S) == { v \in [Fields -> 0..3] :
-                      /\ \A f \in Fields : (f \notin S => v[f] = 0) /\ (f \in S => v[f] # 0)
-                      /\ \A f \in S : (v[f] = 3 => f \in {"request_id", "opt_request_id"})
-                      /\ (Scope # "full" => \A f, g \in S : (v[f] \in {1, 2} /\ v[g] \in {1, 2}) => v[f] = v[g]) }
+IdFields == {"request_id", "opt_request_id"}
+\* constructive: the fields of S get variant 1 (those in T variant 2); id fields in E are explicitly empty (3)
+Mk(S, T, E) == [f \in Fields |-> IF f \notin S THEN 0 ELSE IF f \in E THEN 3 ELSE IF f \in T THEN 2 ELSE 1]
+ValsFor(mm, S) == { Mk(S, T, E) : T \in (IF Scope = "full" THEN SUBSET S ELSE {{}, S}), E \in SUBSET (S \cap IdFields) }
 UsableFields(mm) == {f \in Fields : HasField(mm, f)}
 Valuations(mm) == UNION { ValsFor(mm, S) : S \in SetsUpTo(UsableFields(mm), MaxSet) }
 FlatSet(mm) == Range(mm.flat)
@@ -91,6 +91,7 @@ Coerce == /\ phase = "invoked" /\ (form # "both" \/ Mutant = "no_mixed_check")
           /\ UNCHANGED <<m, transport, form, args, sent, script, result, raised>>
 
 \* keyword arguments overwrite the corresponding request fields (a None argument leaves the field alone)
+OverlayOk(v, k) == [f \in Fields |-> IF k[f] # 0 THEN k[f] ELSE v[f]]
 Overlay(v, k) == [f \in Fields |-> IF k[f] # 0 /\ ~(Mutant = "drop_falsy_kw" /\ k[f] = 3) THEN k[f] ELSE v[f]]
 ApplyFlattened == /\ phase = "coerced"
                   /\ req' = IF form \in {"kwargs", "both"} /\ ~m.cs THEN <<Overlay(req[1], args.kw)>> ELSE req
@@ -128,7 +129,7 @@ Spec == Init /\ [][Next]_vars /\ WF_vars(Next)
 Done == phase \in {"returned", "raised"}
 \* the request the caller meant: explicit message, or the flattened fields set on an empty request
 Intended == IF m.cs THEN args.reqs
-            ELSE IF form \in {"kwargs"} THEN <<Overlay(NoVal, args.kw)>> ELSE args.reqs
+            ELSE IF form \in {"kwargs"} THEN <<OverlayOk(NoVal, args.kw)>> ELSE args.reqs
 
 \* C03
 Inv_ExactlyOneCall == (phase = "returned" => Len(sent) = 1) /\ (phase = "raised" => Len(sent) = 0) /\ Len(sent) <= 1
